@@ -271,7 +271,7 @@ func init() {
 			c17VerExhaustive(c)
 		}
 		for i := 0; i < c.N; i++ {
-			switch k := c.Rng.Intn(20); {
+			switch k := c.Rng.Intn(24); {
 			case k < 4:
 				c17DagRandom(c)
 			case k < 7:
@@ -282,8 +282,10 @@ func init() {
 				c17ResolveRandom(c)
 			case k < 16:
 				c17ResolveInterfRandom(c)
-			default:
+			case k < 19:
 				c17ReconcileRandom(c)
+			default:
+				c17WorldRandom(c)
 			}
 		}
 	})
@@ -326,6 +328,11 @@ func c17Replay(c *Ctx, raw []byte) {
 		var s c17RecScn
 		if jsonUnmarshalStrict(raw, &s) == nil {
 			c17RecEmit(c, s, "corpus")
+		}
+	case "recw":
+		var s c17WScn
+		if jsonUnmarshalStrict(raw, &s) == nil {
+			c17WEmit(c, s, "corpus")
 		}
 	}
 }
